@@ -1,10 +1,14 @@
 import Iec.Drv.Util
 import Iec.Model.Cli104
+import Iec.Model.CliCmd
 namespace Iec.Drv.Cli104
 open Iec.Drv Iec.Cli104 Iec.KWindow
 
 structure St where
   c : Option Cli := none
+  /-- application layer parameters of the command builders -/
+  al : Iec.Asdu.Params := { sizeOfCOT := 2, sizeOfCA := 2, sizeOfIOA := 3, maxSize := 249 }
+  oa : Nat := 0
   deriving Inhabited
 
 def nat! (s : String) : Nat := s.toNat?.getD 0
@@ -26,52 +30,67 @@ def handle (st : St) (ws : List String) : Option (St × String) :=
   | ["c.new", k, w, t0, t1, t2, t3, scot, sca] =>
       let p : Params := { k := nat! k, w := nat! w, t0 := nat! t0, t1 := nat! t1, t2 := nat! t2, t3 := nat! t3,
                           asduHdr := 2 + nat! scot + nat! sca }
-      some ({ c := some { p := p, now := 1000000 } }, "ok")
+      some ({ c := some { p := p, now := 1000000 }, al := { sizeOfCOT := nat! scot, sizeOfCA := nat! sca, sizeOfIOA := 3, maxSize := 249 }, oa := 0 }, "ok")
   | ["c.connect", ok] => do
       let c ← st.c
       let c := connectAsync { c with connectOk := ok != "0", sock := {} }
       let (c, out) := flush c
-      pure ({ c := some c }, out)
+      pure ({ st with c := some c }, out)
   | ["c.step"] => do
       let c ← st.c
       let (c, out) := flush (step c)
-      pure ({ c := some c }, out)
+      pure ({ st with c := some c }, out)
   | ["c.rx", hex] => do
       let c ← st.c
       let b ← parseHex hex
       -- octets fed after the socket was destroyed are dropped by the harness
       let c := if c.phase = 2 || c.phase = 3 then { c with sock := { c.sock with chunks := c.sock.chunks ++ [b] } } else c
-      pure ({ c := some c }, "ok")
+      pure ({ st with c := some c }, "ok")
   | ["c.peerclose"] => do
       let c ← st.c
-      pure ({ c := some { c with sock := { c.sock with peerClosed := true } } }, "ok")
+      pure ({ st with c := some { c with sock := { c.sock with peerClosed := true } } }, "ok")
   | ["c.wfail", v] => do
       let c ← st.c
-      pure ({ c := some { c with sock := { c.sock with writeFail := v != "0" } } }, "ok")
+      pure ({ st with c := some { c with sock := { c.sock with writeFail := v != "0" } } }, "ok")
   | ["c.adv", dt] => do
       let c ← st.c
-      pure ({ c := some { c with now := c.now + nat! dt } }, "ok")
+      pure ({ st with c := some { c with now := c.now + nat! dt } }, "ok")
   | ["c.preset", vs, vr] => do
       let c ← st.c
-      pure ({ c := some { c with vs := nat! vs, vr := nat! vr } }, "ok")
+      pure ({ st with c := some { c with vs := nat! vs, vr := nat! vr } }, "ok")
   | ["c.startdt"] => do
       let c ← st.c
       let (c, out) := flush (sendStartDT c)
-      pure ({ c := some c }, out)
+      pure ({ st with c := some c }, out)
   | ["c.stopdt"] => do
       let c ← st.c
       let (c, out) := flush (sendStopDT c)
-      pure ({ c := some c }, out)
+      pure ({ st with c := some c }, out)
   | ["c.send", hex] => do
       let c ← st.c
       let b ← parseHex hex
       let (c, r) := sendAsdu c b
       let (c, out) := flush c [s!"send {b2s r}"]
-      pure ({ c := some c }, out)
+      pure ({ st with c := some c }, out)
+  | ["c.al", sioa, oa] => some ({ st with al := { st.al with sizeOfIOA := nat! sioa }, oa := nat! oa }, "ok")
+  | ["c.cmd", kind, a, b, d, hex] => do
+      let c ← st.c
+      let t ← parseHex hex
+      let cmd : Iec.CliCmd.Cmd :=
+        match nat! kind with
+        | 0 => .interrogation (nat! a) (nat! b) (nat! d)
+        | 1 => .counter (nat! a) (nat! b) (nat! d)
+        | 2 => .read (nat! a) (nat! b)
+        | 3 => .clockSync (nat! a) t
+        | 4 => .test (nat! a)
+        | _ => .testTs (nat! a) (nat! b) t
+      let (c, r) := sendAsdu c (Iec.CliCmd.build st.al st.oa cmd)
+      let (c, out) := flush c [s!"send {b2s r}"]
+      pure ({ st with c := some c }, out)
   | ["c.close"] => do
       let c ← st.c
       let (c, out) := flush (closeConn c)
-      pure ({ c := some c }, out)
+      pure ({ st with c := some c }, out)
   | _ => none
 
 end Iec.Drv.Cli104
